@@ -2,11 +2,22 @@ import PeliteModel.Lemmas.PeCsum
 /-! C07, last clause: the computed checksum equals the standard PE checksum of the buffer. -/
 namespace Pelite.Pe
 
-/-- For buffers whose length is a multiple of four the 32-bit accumulate-and-fold of
-`Headers::check_sum` equals the ImageHlp algorithm over 16-bit words (2^16 ≡ 1 mod 65535 and both
-keep the non-zero representative). -/
-theorem C07_checksum_std (v : View) (h4 : v.img.bytes.size % 4 = 0) (hl : eLfanew v.img.bytes % 4 = 0) :
+/-- For every buffer length the 32-bit accumulate-and-fold of `Headers::check_sum` (dwords, then the
+remaining 1–3 bytes zero extended) equals the ImageHlp algorithm over all 16-bit words of the file,
+the last one zero extended (2^16 ≡ 1 mod 65535 and both keep the non-zero representative). -/
+theorem C07_checksum_std (v : View) (hl : eLfanew v.img.bytes % 4 = 0)
+    (hpos : eLfanew v.img.bytes + 24 + 64 + 4 ≤ v.img.bytes.size) :
     v.checkSum = stdPeChecksum v.img.bytes :=
-  checkSum_std v h4 hl
+  checkSum_std v hl hpos
+
+/-- Extra (more general): it suffices that the trailing partial dword, if there is one, is not the
+dword the CheckSum field is looked for in; this covers every length that is a multiple of four with
+no condition on `e_lfanew` beyond alignment.  `hpos` of `C07_checksum_std` cannot be dropped
+altogether: the 89-byte buffer that is zero except for byte 88 = 1 has `e_lfanew = 0`, `check_sum`
+adds the partial dword at 88 (result 90) while the standard algorithm zeroes word 44 (result 89). -/
+theorem C07_checksum_std_general (v : View) (hl : eLfanew v.img.bytes % 4 = 0)
+    (hp : (eLfanew v.img.bytes + 24 + 64) / 4 ≠ v.img.bytes.size / 4 ∨ v.img.bytes.size % 4 = 0) :
+    v.checkSum = stdPeChecksum v.img.bytes :=
+  checkSum_std_general v hl hp
 
 end Pelite.Pe
